@@ -290,9 +290,8 @@ Hbitappendable(int32 bitid)
 int
 Hbitwrite(int32 bitid, int count, uint32 data)
 {
-    static int32     last_bit_id = (-1);  /* the bit ID of the last bitfile_record accessed */
-    static bitrec_t *bitfile_rec = NULL;  /* access record */
-    int              orig_count  = count; /* keep track of orig, number of bits to output */
+    bitrec_t *bitfile_rec = NULL;  /* access record */
+    int       orig_count  = count; /* keep track of orig, number of bits to output */
 
     /* clear error stack and check validity of file id */
     HEclear();
@@ -300,11 +299,9 @@ Hbitwrite(int32 bitid, int count, uint32 data)
     if (count <= 0)
         HRETURN_ERROR(DFE_ARGS, FAIL);
 
-    /* cache the bitfile_record since this routine gets called so many times */
-    if (bitid != last_bit_id) {
-        bitfile_rec = HAatom_object(bitid);
-        last_bit_id = bitid;
-    }
+    /* look the record up on every call (HAatom_object has its own small cache): a private */
+    /* (id -> record) cache here would survive Hendbitaccess and hand out a freed record */
+    bitfile_rec = HAatom_object(bitid);
 
     if (bitfile_rec == NULL)
         HRETURN_ERROR(DFE_ARGS, FAIL);
@@ -420,9 +417,8 @@ Hbitwrite(int32 bitid, int count, uint32 data)
 int
 Hbitread(int32 bitid, int count, uint32 *data)
 {
-    static int32     last_bit_id = (-1); /* the bit ID of the last bitfile_record accessed */
-    static bitrec_t *bitfile_rec = NULL; /* access record */
-    uint32           l;
+    bitrec_t *bitfile_rec = NULL; /* access record */
+    uint32    l;
     uint32           b = 0;      /* bits to return */
     int              orig_count; /* the original number of bits to read in */
     int32            n;
@@ -433,11 +429,9 @@ Hbitread(int32 bitid, int count, uint32 *data)
     if (count <= 0)
         HRETURN_ERROR(DFE_ARGS, FAIL);
 
-    /* cache the bitfile_record since this routine gets called so many times */
-    if (bitid != last_bit_id) {
-        bitfile_rec = HAatom_object(bitid);
-        last_bit_id = bitid;
-    }
+    /* look the record up on every call (HAatom_object has its own small cache): a private */
+    /* (id -> record) cache here would survive Hendbitaccess and hand out a freed record */
+    bitfile_rec = HAatom_object(bitid);
 
     if (bitfile_rec == NULL)
         HRETURN_ERROR(DFE_ARGS, FAIL);
